@@ -412,7 +412,9 @@ class C18(Check):
                S.SCHED([(1, 'a'), (0, 'b'), (2, 'a')], False, [('o1', 'override'), ('o2', 'default')], K=K),
                S.SCHED([(0.5, 'a'), (0, 'b'), (0.5, 'a')], True, [], K=K),
                S.SCHED([(1, 'a'), (0.5, 'b')], True, [('o1', 'default')], K=K, second=[(0.5, 'x'), (1, 'y')]),
-               S.SCHED_BLOCK(K - 1), S.SCHED_SAME(K)]
+               S.SCHED_BLOCK(K - 1), S.SCHED_SAME(K),
+               S.SCHED([(1, 'a'), (0.5, 'b')], True, [('o1', 'default')], K=K, inline=True, horizon=4),
+               S.SCHED([(1, 'a'), (0.5, 'b'), (1, 'c')], False, [('o1', 'default')], K=K, inline=True, horizon=4)]
         jobs += _line_jobs(sel, ['schedule'], tier)
         # a scheduler created while the line is running / between two runs follows its timetable from its creation on
         late = S.LATE(1, creates=[[6]], horizon=4, name='sched')
